@@ -365,3 +365,29 @@ def gen_ctx(rng, max_tensors=4, tuple_p=0.2, ret_p=0.3, provider_p=0.3, libs=(0,
         s.value = ("T", code, tuple(shape))
         ctx.tags.append("p-" + kind)
     return ctx
+
+
+def rebinding_contexts(with_provider: bool = True) -> list[Ctx]:
+    """Exhaustive small family: a name `n` is bound first in one way (plain axis, named literal, named expression, scope provider)
+    to 0, 1 or 3 — zero being a size like any other — and then met again in another way (plain, named literal, named expression,
+    inside an expression) with a size that agrees or not.  The oracle decides each of them."""
+    out = []
+    f32 = dt(0, "float32")
+    binders = []
+    for v1 in (0, 1, 3):
+        binders.append(("plain", {}, "n c", (v1, 3)))
+        binders.append(("namedlit", {}, f"c n={v1}", (3, v1)))
+        binders.append(("namedexpr", {}, f"c n=c-{3 - v1}", (3, v1)))
+        if with_provider:
+            binders.append(("provider", {"n": v1}, "c", (3,)))
+    for bk, scope, bshape, bval in binders:
+        for v2 in (0, 1, 3, 4):
+            users = [("plain", "n", (v2,)), ("namedlit", f"n={v2}", (v2,)), ("namedexpr", f"c n=c+{v2 - 3}" if v2 >= 3 else f"c n=c-{3 - v2}", (3, v2)),
+                     ("inexpr", "n+1 c", (v2 + 1, 3))]
+            for uk, ushape, uval in users:
+                c = Ctx(scope=dict(scope))
+                c.params.append(Param("x", [Slot("FloatTensor", bshape, False, ("T", f32, bval))], False))
+                c.params.append(Param("y", [Slot("FloatTensor", ushape, False, ("T", f32, uval))], False))
+                c.tags += ["rebind", bk, uk]
+                out.append(c)
+    return out
